@@ -177,18 +177,25 @@ def closedStep (x : Sess) (toks : List String) : Step :=
       | some cap =>
         let oo : OpenOpts := { sync := fl == "sync", kind := k, reserved := reserved, cap := cap, minSeg := minseg,
                                retries := x.opts.retries, magic := magic, create := create == 1, createNew := false }
+        let pkOf (before after : FileSys) : Nat :=
+          match before, after with
+          | some b, some a => if a.size ≥ b.size ∧ a.extract 0 b.size == b then 1 else 0
+          | none, _ => 1
+          | some _, none => 0
         match openFile m oo x.fs with
         | (.error e, fs') =>
+          let pk := pkOf x.fs fs'
           let x := { x with fs := fs' }
-          { sess := some x, out := s!"r=io:{ioStr e} {fileStr fs'}" }
+          { sess := some x, out := s!"r=io:{ioStr e} pk={pk} {fileStr fs'}" }
         | (.ok r, fs') =>
           let opts : Opts := { sync := oo.sync, kind := r.cfg.kind, unify := true, file := true, anon := false,
                                reserved := reserved, cap := x.opts.cap, minSeg := minseg, retries := x.opts.retries,
                                magic := magic }
+          let before := x.fs
           let x := { x with opts := opts, cfg := r.cfg, st := r.st, handles := [], arenas := [0], refs := 1,
                             fs := fs', mapping := r.mapping, closed := false, removeOnDrop := false }
           { sess := some x,
-            out := s!"r=ok doff={r.cfg.dataOffset} ro={if r.cfg.ro then 1 else 0} fk={kindStr r.cfg.kind} mv={magic} {fileStr x.file} {stateStr x}" }
+            out := s!"r=ok doff={r.cfg.dataOffset} ro={if r.cfg.ro then 1 else 0} fk={kindStr r.cfg.kind} mv={magic} pk={pkOf before x.file} {fileStr x.file} {stateStr x}" }
     | _, _, _, _, _, _, _, _ => { sess := some x, out := "bad-op" }
   | ["close"] | ["flush"] | ["remove_on_drop", _] => { sess := some x, out := "bad-op" }
   | _ => { sess := some x, out := "r=closed" }
